@@ -82,7 +82,7 @@ class C46(OpMachine):
     thorough_runs = 80000
     chunk = 100
     expected_probes = ["resolve", "open", "exists", "readlink", "stat", "lstat", "adv_link_file", "adv_link_dir",
-                       "adv_link_abs_outside", "adv_link_rel_dotdot", "adv_chain", "adv_remove", "guest_dotdot",
+                       "adv_link_abs_outside", "adv_link_rel_dotdot", "adv_chain", "adv_long_chain", "adv_remove", "guest_dotdot",
                        "guest_bytes_path", "through_dir_link", "final_link", "passthrough_hit", "winpath", "unixpath",
                        "data_read_back"]
 
@@ -113,7 +113,7 @@ class C46(OpMachine):
         for _ in range(rng.randint(1, 25)):
             r = rng.random()
             if r < 0.3 and not steer:
-                kind = rng.choice(["file", "dir", "abs_out", "rel_dotdot", "chain", "abs_guest", "remove"])
+                kind = rng.choice(["file", "dir", "abs_out", "rel_dotdot", "chain", "abs_guest", "remove", "longchain"])
                 actions.append(["adv", kind, rng.choice(["l", "dl", "d/l", "x"]), rng.randrange(4)])
             elif r < 0.3:
                 # steered runs keep only links that stay inside by themselves
@@ -331,6 +331,22 @@ class C46(OpMachine):
             w.probe("adv_remove")
         if kind == "remove":
             log.add("adv remove", where)
+            return
+        if kind == "longchain":
+            # a long, non-looping chain of links (deeper than any resolver's give-up limit) whose tail
+            # leaves the sandbox if the host is ever allowed to follow it
+            length = [8, 45, 70, 120][n]
+            final = [os.path.join(w.outside, "secret.txt"), w.outside, "/" + os.path.relpath(w.outside, "/") + "/etc/passwd", "a.txt"][n]
+            prev = final
+            for i in range(length - 1, 0, -1):
+                name = os.path.join(w.base, "c%d_%d" % (n, i))
+                if os.path.lexists(name):
+                    os.unlink(name)
+                os.symlink(prev, name)
+                prev = "c%d_%d" % (n, i)
+            os.symlink(prev if "/" not in where else "../" + prev, path)
+            w.probe("adv_long_chain")
+            log.add("adv longchain", where, length, n)
             return
         depth = where.count("/")
         up = "../" * (depth + 1 + n % 2)
